@@ -44,6 +44,8 @@ pub struct Tr<'a> {
     pub counter: BTreeMap<String, usize>,
     pub mut_methods: BTreeSet<String>,
     pub generic_tys: BTreeSet<String>,
+    /// generic parameters fixed by the monomorphic instance this impl is translated for
+    pub subst: BTreeMap<String, Ty>,
 }
 
 pub fn lit(n: i128) -> String {
@@ -153,6 +155,13 @@ pub fn conv_ty(t: &Type, adts: &dyn Fn(&str) -> bool, generics: &BTreeSet<String
             if let Some(i) = IntTy::from_name(&name) {
                 return Ok(Ty::Int(Some(i)));
             }
+            if !matches!(seg.arguments, PathArguments::None) {
+                // a configured monomorphic instance of a generic struct (`MajorMinor<i32>`)
+                let full: String = quote::ToTokens::to_token_stream(seg).to_string().chars().filter(|c| !c.is_whitespace()).collect();
+                if adts(&full) {
+                    return Ok(Ty::Adt(full));
+                }
+            }
             match name.as_str() {
                 "bool" => Ok(Ty::Bool),
                 "Self" => match self_ty {
@@ -250,7 +259,8 @@ pub enum Body<'b> {
 impl<'a> Tr<'a> {
     pub fn ty(&self, t: &Type) -> R<Ty> {
         let tabs = self.t;
-        conv_ty(t, &|n| tabs.adts.contains_key(n) || tabs.externs.contains_key(n.strip_prefix("extern:").unwrap_or(n)), &self.generic_tys, self.self_ty.as_deref())
+        let r = conv_ty(t, &|n| tabs.adts.contains_key(n) || tabs.externs.contains_key(n.strip_prefix("extern:").unwrap_or(n)), &self.generic_tys, self.self_ty.as_deref())?;
+        Ok(subst_ty(&r, &self.subst))
     }
 
     pub fn fresh(&mut self, name: &str) -> String {
